@@ -195,8 +195,22 @@ def target_of(freq):
 # ------------------------------------------------------------------ impl / ops
 
 
+def _other_reduce(name):
+    """a different reducer for the warm-up call on the same object (results must not depend on call history)"""
+    return np.min if name == "max" else np.max
+
+
+def _warm(fn):
+    try:
+        fn()
+    except Exception:
+        pass
+
+
 def _call(case):
-    """run the real code; returns the canonical answer strings"""
+    """run the real code; returns the canonical answer strings.  Every measured call is preceded by the same call
+    with a different reducer ON THE SAME OBJECT, so that a result remembered from an earlier call (keyed on less than
+    all arguments) shows up as a wrong value here."""
     k = case["op"]
     if k == "over":
         s = build(case["src"])
@@ -210,11 +224,15 @@ def _call(case):
             arg = np.array(rl)
         else:
             raise ValueError(shape)
+        _warm(lambda: s.downsampled_over(arg, reduce=_other_reduce(case["reduce"]), where=case["where"]))
         r = s.downsampled_over(arg, reduce=np_reduce(case["reduce"]), where=case["where"])
         return ["ok " + show(r.timestamps, r.data)]
     if k in ("to", "toby"):
         s = build(case["src"])
         out = []
+        _warm(lambda: s.downsampled_to(case["freq"], reduce=_other_reduce(case["reduce"]), where=case["where"], method=case["method"]))
+        if k == "toby":
+            _warm(lambda: s.downsampled_by(case["k"], reduce=_other_reduce(case["reduce"])))
         try:
             r = s.downsampled_to(case["freq"], reduce=np_reduce(case["reduce"]), where=case["where"], method=case["method"])
             out.append("ok " + show(r.timestamps, r.data))
@@ -229,11 +247,13 @@ def _call(case):
         return out
     if k == "by":
         s = build(case["src"])
+        _warm(lambda: s.downsampled_by(case["k"], reduce=_other_reduce(case["reduce"])))
         r = s.downsampled_by(case["k"], reduce=np_reduce(case["reduce"]))
         return [f"ok {int(r._src.dt)} " + show(r.timestamps, r.data)]
     if k == "like":
         s = build(case["src"])
         ref = build(case["ref"])
+        _warm(lambda: s.downsampled_like(ref, reduce=_other_reduce(case["reduce"])))
         a, b = s.downsampled_like(ref, reduce=np_reduce(case["reduce"]))
         return ["ok " + show(a.timestamps, a.data) + " " + enc_list(b.timestamps)]
     if k == "arith":
